@@ -897,7 +897,11 @@ def verify_contract(c, registry, overrides=None, timeout_ms=10000, log=None, wan
             res.callees |= set(it.used_contracts)
             res.inlined |= set(it.inlined)
             res.assumed |= set(it.assumed_used)
-            sum_facts = npm.sum_extensionality(ctx)
+            ctx.frozen_iterms += 1
+            try:
+                sum_facts = npm.sum_extensionality(ctx)
+            finally:
+                ctx.frozen_iterms -= 1
             for ob in ctx.obligs:
                 ob_id += 1
                 st = discharge(ob, timeout_ms, extra=sum_facts,
